@@ -239,10 +239,14 @@ def run_property(pid, tier, seed):
     battery = []
     dyn_viol = []
     if (undecided and not violations) or tier == 'thorough' or getattr(mod, 'ALWAYS_RUN_SCENARIOS', False):
-        for key, script, *rest in getattr(mod, 'SCENARIOS', ()):
-            sc_failed, out, cmd = run_scenario(script, rest[0] if rest else ())
+        scs = list(getattr(mod, 'SCENARIOS', ()))
+        if tier == 'thorough':
+            scs += list(getattr(mod, 'THOROUGH_SCENARIOS', ()))        # deeper runs of the same batteries: more seeds, larger loads
+        for key, script, *rest in scs:
+            to = rest[1] if len(rest) > 1 else 150
+            sc_failed, out, cmd = run_scenario(script, rest[0] if rest else (), timeout=to)
             if sc_failed:      # re-run once: a scenario must fail twice to count (guards against a loaded machine)
-                sc_failed, out, cmd = run_scenario(script, rest[0] if rest else ())
+                sc_failed, out, cmd = run_scenario(script, rest[0] if rest else (), timeout=to)
             battery.append({'cmd': ' '.join(cmd), 'failed': sc_failed})
             if sc_failed:
                 d = os.path.join(HERE, 'replay', pid)
